@@ -26,7 +26,7 @@ var h16Classes = []struct {
 // H16a: classes, named combinations, constructor defaults, retry budget.
 func H16a() {
 	// the built-ins must be what they are whatever recipes ran before in the process
-	if e := vChoice("earlier-recipe", 7); e > 0 {
+	if e := vChoice("earlier-recipe", 9); e > 0 {
 		vSummary(true)
 		r := []CharRecipe{
 			{Length: 3, Allow: Digits, AllowChars: "abcdef"},
@@ -35,9 +35,16 @@ func H16a() {
 			{Length: 3, Allow: Symbols, AllowChars: "é"},
 			{Length: 3, Allow: All, Exclude: Ambiguous, ExcludeChars: "abcxyz2346"},
 			{Length: 3, Allow: Letters, Exclude: Digits, ExcludeChars: "Q"},
+			{Length: 3, Allow: Lowers, RequireSets: []string{"aeiou"}},
+			{Length: 3, Allow: Digits, RequireSets: []string{"13579"}},
 		}[e-1]
+		// (the earlier call runs with a small retry budget; the default is
+		// put back before it is checked below)
+		savedT, savedF := MaxTrials, MaxFailRate
+		MaxTrials, MaxFailRate = 2, 1.0
 		r.Generate()
 		r.Alphabet()
+		MaxTrials, MaxFailRate = savedT, savedF
 		vSummary(false)
 		vReach("after-another-recipe")
 	}
@@ -90,6 +97,11 @@ func H16p() {
 		r.Generate()
 		r2 := CharRecipe{Length: 3, Allow: All, Exclude: Ambiguous, ExcludeChars: "abcxyz2346"}
 		r2.Generate()
+		savedT, savedF := MaxTrials, MaxFailRate
+		MaxTrials, MaxFailRate = 2, 1.0
+		r3 := CharRecipe{Length: 3, Allow: Digits, RequireSets: []string{"13579"}}
+		r3.Generate()
+		MaxTrials, MaxFailRate = savedT, savedF
 	}
 	p := h16Presets[second]
 	d0 := vDrawCount()
@@ -123,6 +135,26 @@ func H16p() {
 	vAssert(!(s == s2) || same, "two different draws give the same separator: the preset is not uniform over its documented set: "+p.name)
 	vAssert(!same || s == s2, "the same draws give different separators: "+p.name)
 	vReach("preset")
+}
+
+// H16f: a preset under a failing random source (tape mode: the real kernel on
+// source bytes, the failing read and the bytes it still delivers are harness
+// choices): it must not return a separator - in particular not the empty one,
+// which only SFNone may yield.
+func H16f() {
+	k := 1 + vChoice("preset", len(h16Presets)-1)
+	p := h16Presets[k]
+	f := vLen("fault-read", 0, p.n-1)
+	j := vLen("fault-bytes", 0, 3)
+	vFaultAt(f, j)
+	var s string
+	panicked := vTry(func() { s, _ = p.f() })
+	if vFaultHit() {
+		vAssert(panicked, "a preset returned a separator although a read of the random source failed: "+p.name)
+		vReach("fault-hit")
+	} else {
+		vAssert(!panicked && len(strings.Split(s, "")) == p.n, "a preset failed without a source failure: "+p.name)
+	}
 }
 
 // H16l: the shipped lists as built by the package initialiser equal their
